@@ -18,6 +18,7 @@ package fieldmask
 
 import (
 	"encoding/json"
+	"errors"
 	"fmt"
 	"io"
 	"math"
@@ -116,6 +117,8 @@ func (p pathToken) Err() error {
 	switch p.typ {
 	case pathTypeEOF:
 		return io.EOF
+	case pathTypeERR:
+		return errors.New(p.val.Str())
 	default:
 		return nil
 	}
@@ -160,7 +163,7 @@ func newPathToken(typ pathType, val string, s, e int) pathToken {
 	switch typ {
 	case pathTypeEOF:
 		return pathToken{typ: typ}
-	case pathTypeStr, pathTypeAny, pathTypeElem, pathTypeField, pathTypeIndexL, pathTypeIndexR, pathTypeLitStr, pathTypeMapR, pathTypeMapL, pathTypeRoot:
+	case pathTypeStr, pathTypeAny, pathTypeElem, pathTypeField, pathTypeIndexL, pathTypeIndexR, pathTypeLitStr, pathTypeMapR, pathTypeMapL, pathTypeRoot, pathTypeERR:
 		return pathToken{typ: typ, val: newPathValueStr(val), loc: [2]int{s, e}}
 	case pathTypeLitInt:
 		i, err := strconv.Atoi(val)
